@@ -366,14 +366,38 @@ def op(k, n, fail=(), hasargs=False):
     return {'k': k, 'fail': list(fail), 'hasargs': hasargs, 'argd': argd_for(n)}
 
 
-def sequence_scenarios(n):
+def sequence_scenarios(n, full=True):
     """Call sequences that exercise the open/close state and the per-call reporter."""
     out = []
     for f in subsets(n):
+        if not full and len(f) > 1:
+            continue
         out.append({'n': n, 'ops': [op('open', n, f), op('open', n)]})
         out.append({'n': n, 'ops': [op('psafe', n, f, True), op('psafe', n)]})
     out.append({'n': n, 'ops': [op('open', n), op('close', n), op('open', n)]})
-    out.append({'n': n, 'ops': [op('open', n), op('par', n, range(1, n + 1)), op('open', n, [1] if n else [])]})
+    if full or n < 2:
+        out.append({'n': n, 'ops': [op('open', n), op('par', n, range(1, n + 1)), op('open', n, [1] if n else [])]})
+    return out
+
+
+def n3_scenarios():
+    """3 members: exhaustive for at most one failing member, sampled schedules for the rest."""
+    ex, sampled = [], []
+    for k in KINDS:
+        for f in (subsets(3) if k != 'close' else [[]]):
+            sc = {'n': 3, 'ops': [op(k, 3, f, k in ('seq', 'par', 'psafe'))]}
+            (ex if len(f) <= 1 or k == 'seq' else sampled).append(sc)
+    return ex, sampled
+
+
+def mutant_scenarios():
+    out = []
+    for k in KINDS:
+        for f in (subsets(2) if k != 'close' else [[]]):
+            out.append({'n': 2, 'ops': [op(k, 2, f, k in ('seq', 'par', 'psafe'))]})
+    out.append({'n': 1, 'ops': [op('open', 1), op('open', 1)]})
+    out.append({'n': 1, 'ops': [op('psafe', 1, [1], True), op('psafe', 1)]})
+    out.append({'n': 1, 'ops': [op('open', 1, [1]), op('open', 1)]})
     return out
 
 
@@ -447,10 +471,10 @@ def _init():
 
 
 def _job(job):
-    kind, sc, arg, mutant = job
+    kind, sc, arg, mutant = job[:4]
     mut = _mut(mutant) if mutant else None
     if kind == 'dfs':
-        return dfs(sc, root=arg, mutant=mut)
+        return dfs(sc, root=arg, mutant=mut, limit=job[4] if len(job) > 4 else None)
     tr = execute(sc, arg, mut)
     tr.pop('branch', None)
     tr.pop('choices', None)
@@ -462,12 +486,14 @@ def run_jobs(jobs):
     scs, traces = [], []
     for job, trs in zip(jobs, res):
         for t in trs:
+            if job[3]:
+                t['mutant'] = job[3]
             scs.append(job[1])
             traces.append(t)
     return scs, traces
 
 
-def dfs_jobs(scs, mutant=None, split=0):
+def dfs_jobs(scs, mutant=None, split=0, limit=None):
     """One DFS job per scenario; scenarios with n >= split (if split) are cut into one job per
     schedule prefix of the first steps so that the big ones spread over the cores."""
     jobs = []
@@ -475,7 +501,7 @@ def dfs_jobs(scs, mutant=None, split=0):
         if split and sc['n'] >= split:
             jobs.extend(('dfs', sc, p, mutant) for p in _prefixes(sc, 9))
         else:
-            jobs.append(('dfs', sc, [], mutant))
+            jobs.append(('dfs', sc, [], mutant, limit))
     return jobs
 
 
@@ -504,8 +530,9 @@ def _prefixes(sc, depth):
 def judge(out, traces, label, count=True):
     for i, t in enumerate(traces):
         t['id'] = i + 1
-    slim = [{k: v for k, v in t.items() if k not in ('schedule',)} for t in traces]
-    verdicts, st = common.validate_traces('SwarmTrace.tla', 'TRACE_Swarm.cfg', slim)
+    slim = [{k: v for k, v in t.items() if k not in ('schedule', 'mutant')} for t in traces]
+    chunk = min(4000, max(1000, (len(slim) + common.NCPU - 1) // common.NCPU))
+    verdicts, st = common.validate_traces('SwarmTrace.tla', 'TRACE_Swarm.cfg', slim, chunk=chunk)
     if count:
         out.traces += len(traces)
     out.states += st['states']
@@ -613,15 +640,21 @@ def main(tier, seed, replay=None):
         out.conformance['spec_to_code']['first_mismatch'] = first_mismatch
 
     # 3. code -> spec: every interleaving for small swarms, seeded random schedules beyond
-    nfull = 2 if tier == 'quick' else 3
     ex_scs = []
-    for n in range(0, nfull + 1):
+    for n in range(0, 3):
         ex_scs += single_op_scenarios(n)
     for n in range(0, 3):
-        ex_scs += sequence_scenarios(n)
-    d_scs, d_traces = run_jobs(dfs_jobs(ex_scs, split=3))
+        ex_scs += sequence_scenarios(n, full=(tier != 'quick'))
     nrand = 1500 if tier == 'quick' else 30000
     rjobs = []
+    if tier != 'quick':
+        ex3, sampled3 = n3_scenarios()
+        ex_scs += ex3
+        for sc in sampled3:
+            for i in range(400):
+                sd = rng.randrange(1 << 30)
+                rjobs.append(('run', sc, ('random', sd) if i % 2 else ('pct', sd, 1 + i % 4, 40), None))
+    d_scs, d_traces = run_jobs(dfs_jobs(ex_scs, split=2))
     for i in range(nrand):
         sc = random_scenario(rng)
         sd = rng.randrange(1 << 30)
@@ -645,27 +678,32 @@ def main(tier, seed, replay=None):
     out.distinct = len({json.dumps([t['n'], t['ops'], t['schedule']]) for t in all_traces})
     out.exhaustive = True
     out.extra['interleavings'] = {'exhaustive_scenarios': len(ex_scs), 'exhaustive_executions': len(d_traces),
-                                  'max_members_exhaustive': nfull, 'random_executions': len(r_traces)}
+                                  'random_executions': len(r_traces)}
     out.rule = ('execution = (swarm size, call sequence with failing subset and argument dictionary per call, '
                 'schedule); sources: transition tour + -simulate behaviours of Swarm.tla scripted into the real '
                 'Swarm, ALL schedules (stateless DFS over scheduler choices) of every single call kind x failing '
-                'subset x args for n <= %d and of call sequences for n <= 2, seeded random/PCT schedules for '
-                'n <= 6 and <= 4 calls; distinct = distinct (scenario, schedule)' % nfull)
+                'subset x args for n <= 2%s and of call sequences for n <= 2, seeded random/PCT schedules for '
+                'n <= 6 and <= 4 calls; distinct = distinct (scenario, schedule)' %
+                ('' if tier == 'quick' else ' (n = 3: at most one failing member; more: 400 sampled schedules each)'))
     pick = [0, len(all_traces) // 2, len(all_traces) - 1]
     out.samples = [{'n': all_traces[i]['n'], 'ops': all_traces[i]['ops'], 'schedule': all_traces[i]['schedule'],
                     'events': [e for e in all_traces[i]['ev'] if e['e'] != 'step'][:14]} for i in pick]
 
     # 4. sensitivity: in-memory mutants must be rejected by the monitor
-    m_scs = []
-    for n in (1, 2):
-        m_scs += single_op_scenarios(n) + sequence_scenarios(n)
+    m_scs = mutant_scenarios()
+    mjobs = []
     for name in MUTANTS:
-        _s, mt = run_jobs(dfs_jobs(m_scs, mutant=name))
-        o2 = common.Outcome('C19', tier, seed)
-        mbad, _ = judge(o2, mt, 'mutant ' + name)
-        clauses = sorted({c for _t, c, _a in mbad})
-        out.sensitivity['mutant:' + name] = '%d of %d traces rejected (%s)' % (len(mbad), len(mt), ','.join(clauses))
-        if not mbad:
+        mjobs += dfs_jobs(m_scs, mutant=name, limit=(300 if tier == 'quick' else None))
+    _s, mt = run_jobs(mjobs)
+    o2 = common.Outcome('C19', tier, seed)
+    mbad, _ = judge(o2, mt, 'mutants')
+    out.tlc_runs.extend(o2.tlc_runs)
+    for name in MUTANTS:
+        tot = sum(1 for t in mt if t['mutant'] == name)
+        rej = [(t, c) for t, c, _a in mbad if t['mutant'] == name]
+        clauses = sorted({c for _t, c in rej})
+        out.sensitivity['mutant:' + name] = '%d of %d traces rejected (%s)' % (len(rej), tot, ','.join(clauses))
+        if not rej:
             raise common.MachineryError('monitor did not reject in-memory mutant %s' % name)
     # binding self-tests: a dropped event / a changed projection must be rejected
     base = next(t for t in d_traces if t['n'] == 2 and t['ops'][0]['k'] == 'psafe')
